@@ -347,7 +347,7 @@ func (in *Inferer) expr(e Expr, env *tenv) *Ty {
 	switch v := e.(type) {
 	case IntLit:
 		return TInt
-	case StrLit, RawStr, Interp:
+	case StrLit, StrSrc, RawStr, Interp:
 		return TString
 	case BoolLit:
 		return TBool
